@@ -197,6 +197,17 @@ def handle (req : J) : Except String J := do
     let o := Cli.runCli r files
     pure (okJ (Lean.Json.mkObj [("exit", .num (Lean.JsonNumber.fromNat o.exit)), ("stdout", .str o.stdout),
       ("files", .arr (o.files.map (fun (p, t) => Lean.Json.arr #[.str p, .str t])).toArray)]))
+  | "convert" => do
+    let o ← decOracles (fieldD req "orc" (Lean.Json.mkObj []))
+    let t ← decTy (← field req "ty")
+    let v ← decJson (← field req "in")
+    let path ← decStrs (← field req "path")
+    let optional ← asBool (fieldD req "optional" (.bool false))
+    pure (resJ encPVal (processValue o.accepts path v t optional))
+  | "paths" => do
+    let fs ← decFields (← field req "in")
+    pure (resJ (fun (ps : List (String × String)) =>
+      Lean.Json.arr (ps.map (fun (k, p) => Lean.Json.arr #[.str k, .str p])).toArray) (stringFieldPaths fs))
   | "closure" => do
     let n ← asNat (← field req "n")
     let edges ← (← asArr (← field req "edges")).toList.mapM (fun e => do
